@@ -21,6 +21,7 @@ from .absint import Interp
 from .report import Finding
 
 WHAT = {
+    "L9": "location texts and features list files are read as written: FILE[:LINE], comments/blank lines skipped, names stripped and resolved against the list file's directory",
     "L1": "entity found at a line expands to exactly its scenarios; isinstance ladders test subclasses first",
     "L3": "bisect works on a sorted key list",
     "L4": "build_feature skips exactly the unselected scenarios (by identity) except setup/teardown ones",
@@ -112,6 +113,13 @@ def check_line_expansion(chk, ix):
         walked = st.alloc(HObj("list", kind="list", items=["walk-result"], label="walk_scenarios()"))
         rows = st.alloc(HObj("list", kind="list", items=["row1", "row2"], label="outline rows"))
         item = _model_token(ix, st, kind, "item")
+        if kind in ("Feature", "Rule"):
+            # direct children only (an outline as one object): not what a line addressing the container selects
+            st.wobj(item).fields["scenarios"] = st.alloc(HObj("list", kind="list", items=["direct-child", "outline-object"], label="direct children"))
+            st.wobj(item).fields["rules"] = st.alloc(HObj("list", kind="list", items=[], label="rules"))
+            st.wobj(item).fields["run_items"] = st.alloc(HObj("list", kind="list", items=["direct-child", "outline-object"], label="run items"))
+        if kind == "ScenarioOutline":
+            st.wobj(item).fields["_scenarios"] = st.alloc(HObj("list", kind="list", items=[], label="row cache (not built yet)"))
         stubs = {"FeatureLineDatabase.select_run_item_by_line": lambda it, s, a, k, n: [(s, "val", item)],
                  "ScenarioContainer.walk_scenarios": lambda it, s, a, k, n: [(s, "val", walked)]}
         it = Interp(ix, stubs=stubs, attr_stubs={"ScenarioOutline.scenarios": lambda i, s, b, n: [(s, "val", rows)]},
@@ -152,6 +160,65 @@ def check_line_expansion(chk, ix):
         chk.ok("L3", {"bisect_on": "keys of the (sorted) line data"}, nontrivial_key="bisect keys")
     else:
         _fail(chk, "L3", sel, "bisect keys", "bisect is not applied to the keys of the sorted line data")
+
+
+def check_location_parsing(chk, ix):
+    """L9: FileLocationParser / FeatureListParser on concrete texts (constant folding; os.path, glob, re are stdlib)"""
+    import os as _os
+    import glob as _glob
+    chk.rule("L9", WHAT["L9"])
+    made = []
+
+    def file_location(it, st, args, kw, node):
+        made.append((args[0], args[1] if len(args) > 1 else kw.get("line")))
+        return [(st, "val", "LOC:%s:%s" % made[-1])]
+    fold = {"os.path.isabs": _os.path.isabs, "os.path.join": _os.path.join, "os.path.normpath": _os.path.normpath,
+            "glob.has_magic": _glob.has_magic}
+    stubs = {k: (lambda i, s_, a, kw, n, _f=f_: [(s_, "val", _f(*a))]) for k, f_ in fold.items()}
+    stubs["FileLocation"] = file_location
+    fp = ix.func("behave.runner_util:FileLocationParser.parse")
+    for text, want in (("a.feature", ("a.feature", None)), ("a.feature:12", ("a.feature", 12)), ("  dir/a.feature:3  ", ("dir/a.feature", 3)),
+                       ("a.feature:0", ("a.feature", 0)), ("C:\\x\\a.feature:7", ("C:\\x\\a.feature", 7)), ("C:\\x\\a.feature", ("C:\\x\\a.feature", None)),
+                       ("a.feature:", ("a.feature:", None)), ("dir:1/a.feature", ("dir:1/a.feature", None))):
+        del made[:]
+        it = Interp(ix, stubs=stubs, name="FileLocationParser.parse")
+        it.fold_regex = True
+        it.int_sat = 1000
+        st = State()
+        st.frames = []
+        outs = it.call_function(st, fp, [text], {}, None, self_val=ClassVal(ix.cls("behave.runner_util:FileLocationParser")))
+        chk.absorb(it)
+        chk.instance("L9")
+        if len(outs) != 1 or outs[0][1] != "val" or len(made) != 1:
+            raise AnalysisError("FileLocationParser.parse not foldable on %r: %r" % (text, [(k, v) for _, k, v in outs][:3]))
+        if made[0] == want:
+            chk.ok("L9", {"text": text, "location": list(want)}, nontrivial_key=("loc", text))
+        else:
+            _fail(chk, "L9", fp, "%r -> %r" % (text, made[0]), "the location text %r is parsed as file %r line %r; expected file %r line %r" % (
+                text, made[0][0], made[0][1], want[0], want[1]))
+    lp = ix.func("behave.runner_util:FeatureListParser.parse")
+    listing = "# comment\nalice.feature\n\n   # indented comment\n  bob.feature:12  \nsub/charly.feature:3\n/abs/doro.feature\n\t\n#last"
+    for here in (None, "/proj/lists", "."):
+        got = []
+        st2 = dict(stubs)
+        st2["FileLocationParser.parse"] = lambda i, s_, a, kw, n: (got.append(a[-1]), [(s_, "val", "LOC:" + str(a[-1]))])[1]
+        it = Interp(ix, stubs=st2, name="FeatureListParser.parse")
+        it.fold_regex = True
+        it.int_sat = 1000
+        st = State()
+        st.frames = []
+        outs = it.call_function(st, lp, [listing] + ([here] if here else []), {}, None)
+        chk.absorb(it)
+        chk.instance("L9")
+        if len(outs) != 1 or outs[0][1] != "val":
+            raise AnalysisError("FeatureListParser.parse not foldable: %r" % ([(k, v) for _, k, v in outs][:3],))
+        names = ["alice.feature", "bob.feature:12", "sub/charly.feature:3", "/abs/doro.feature"]
+        want = [_os.path.normpath(n if (not here or _os.path.isabs(n)) else _os.path.join(here, n)) for n in names]
+        if got == want:
+            chk.ok("L9", {"listfile": listing, "here": here, "locations": got}, nontrivial_key=("list", here))
+        else:
+            _fail(chk, "L9", lp, "here=%r -> %r" % (here, got), "a features list file (comments, indented comments, blank lines, padded "
+                  "names) read relative to %r gives the names %r; expected %r" % (here, got, want))
 
 
 def check_build_feature(chk, ix):
@@ -332,7 +399,8 @@ def check_name_selection(chk, ix):
             it = Interp(ix, stubs=stubs, attr_stubs={"ScenarioOutline.scenarios": lambda i, s, b, n: [(s, "val", lst)]},
                         name="ScenarioOutline.should_run_with_name_select")
             cfg = st.alloc(HObj("ConfigStub", {"name": "x" if has_name else None}, label="config"))
-            me = st.alloc(HObj(oc, {"name": "o"}, label="outline"))
+            me = st.alloc(HObj(oc, {"name": "o", "_scenarios": st.alloc(HObj("list", kind="list", items=[], label="row cache (not built yet)"))},
+                               label="outline"))
             outs = it.call_function(st, fo, [cfg], {}, None, self_val=me)
             chk.absorb(it)
             chk.instance("L7")
